@@ -146,15 +146,21 @@ def _settings_again(schema: dict) -> dict:
     return settings
 
 
-def _emit_paths(schema: dict, path: tuple = ()) -> list:
-    """The paths at which a store schema sets an ``_emit`` flag."""
+def _emit_paths(
+        schema: dict, path: tuple = (), globs: bool = False) -> list:
+    """The paths at which a store schema sets an ``_emit`` flag (with
+    ``globs``, also the stores for whose children it sets one)."""
     paths = []
     for key, value in schema.items():
         if key == '_emit':
             paths.append(path)
-        elif isinstance(value, dict) and not str(key).startswith('_') \
-                and key != '*':
-            paths.extend(_emit_paths(value, path + (key,)))
+        elif not isinstance(value, dict):
+            continue
+        elif key in ('*', '_subschema'):
+            if globs and _emit_paths(value, globs=True):
+                paths.append(path)
+        elif not str(key).startswith('_'):
+            paths.extend(_emit_paths(value, path + (key,), globs))
     return paths
 
 
@@ -506,6 +512,14 @@ class Engine:
 
         # override emit settings in store
         if store_schema:
+            # (an explicit request replaces an earlier one: flags pinned
+            # by set_emit_value or by the store_schema of an earlier
+            # engine over the same store are open to this one)
+            for path in _emit_paths(store_schema, globs=True):
+                try:
+                    self.state.get_path(path)._pin_emit(False)
+                except Exception:  # pylint: disable=broad-except
+                    pass
             self.state._apply_config(store_schema)
             # The schema may have expanded the hierarchy: children it
             # added get the sub-schemas and defaults of their stores,
